@@ -8,7 +8,7 @@ use crate::{
     error::{BlobError, Result},
     gc::decrement_chunk_refs,
     metadata::RepairStats,
-    streaming::{get_bytes, get_int, get_pointers, get_string},
+    streaming::{get_bytes, get_int, get_pointers, get_string, WRITER_PREFIX},
 };
 
 /// Verify the integrity of an artifact by checking its checksum.
@@ -75,8 +75,18 @@ pub fn verify_chunk(store: &TensorStore, chunk_key: &str) -> Result<bool> {
 pub fn repair(store: &TensorStore) -> Result<RepairStats> {
     let mut stats = RepairStats::default();
 
-    // 1. Build true reference counts from all artifacts
+    // 1. Build true reference counts from unfinished writers and all artifacts
     let mut true_refs: std::collections::HashMap<String, i64> = std::collections::HashMap::new();
+
+    for writer_key in store.scan(WRITER_PREFIX) {
+        if let Ok(tensor) = store.get(&writer_key) {
+            if let Some(chunks) = get_pointers(&tensor, "_chunks") {
+                for chunk_key in chunks {
+                    *true_refs.entry(chunk_key).or_insert(0) += 1;
+                }
+            }
+        }
+    }
 
     for meta_key in store.scan("_blob:meta:") {
         stats.artifacts_checked += 1;
